@@ -23,6 +23,7 @@ import (
 	v3 "istio.io/istio/pilot/pkg/xds/v3"
 	"istio.io/istio/pkg/config/host"
 	istiolog "istio.io/istio/pkg/log"
+	"istio.io/istio/pkg/util/sets"
 )
 
 // Support generation of 'ApiListener' LDS responses, used for native support of gRPC.
@@ -54,13 +55,14 @@ func subsetClusterKey(subset, hostname string, port int) string {
 }
 
 func (g *GrpcConfigGenerator) Generate(proxy *model.Proxy, w *model.WatchedResource, req *model.PushRequest) (model.Resources, model.XdsLogDetails, error) {
+	// The names are walked in sorted order: the responses must not depend on the iteration order of the set.
 	switch w.TypeUrl {
 	case v3.ListenerType:
-		return g.BuildListeners(proxy, req.Push, w.ResourceNames.UnsortedList()), model.DefaultXdsLogDetails, nil
+		return g.BuildListeners(proxy, req.Push, sets.SortedList(w.ResourceNames)), model.DefaultXdsLogDetails, nil
 	case v3.ClusterType:
-		return g.BuildClusters(proxy, req.Push, w.ResourceNames.UnsortedList()), model.DefaultXdsLogDetails, nil
+		return g.BuildClusters(proxy, req.Push, sets.SortedList(w.ResourceNames)), model.DefaultXdsLogDetails, nil
 	case v3.RouteType:
-		return g.BuildHTTPRoutes(proxy, req.Push, w.ResourceNames.UnsortedList()), model.DefaultXdsLogDetails, nil
+		return g.BuildHTTPRoutes(proxy, req.Push, sets.SortedList(w.ResourceNames)), model.DefaultXdsLogDetails, nil
 	}
 
 	return nil, model.DefaultXdsLogDetails, nil
